@@ -3,6 +3,7 @@
 package smt
 
 import (
+	"crypto/sha256"
 	"fmt"
 	"math/big"
 	"sort"
@@ -44,6 +45,7 @@ type Term struct {
 	B    bool     // bool constant
 	id   int
 	qd   int // quantifier nesting depth
+	h    [32]byte // structural hash (name, sort, value and the hashes of the children): stable across runs
 	// Bound variables for quantifiers.
 	Bound []*Term
 	// Pattern terms for quantifiers (optional).
@@ -75,6 +77,8 @@ type FunDef struct {
 	// For table functions: the set of values in the range (for pruning).
 	Range map[int64]bool
 	Table []int64 // value per index (for concrete evaluation); nil if not a table
+	rawHash [32]byte
+	hashed  bool
 }
 
 // Reset clears global tables (used between independent runs in tests).
@@ -125,6 +129,7 @@ func intern(t *Term) *Term {
 	}
 	t.id = nextID
 	nextID++
+	t.h = structHash(t)
 	for _, a := range t.Args {
 		if a.qd > t.qd {
 			t.qd = a.qd
@@ -136,6 +141,53 @@ func intern(t *Term) *Term {
 	table[k] = t
 	return t
 }
+
+// structHash is the hash of the term's structure; children are interned before their parents, so their hashes exist.
+func structHash(t *Term) [32]byte {
+	b := make([]byte, 0, 96+32*(len(t.Args)+len(t.Bound)+len(t.Pats)))
+	b = append(b, t.Op...)
+	b = append(b, 0)
+	b = append(b, t.S...)
+	b = append(b, 0)
+	b = append(b, t.Name...)
+	b = append(b, 0)
+	if t.Val != nil {
+		b = t.Val.Append(b, 16)
+	}
+	if t.B {
+		b = append(b, 1)
+	} else {
+		b = append(b, 2)
+	}
+	if t.Op == "app" {
+		// an application of a defined function (a constant table) depends on the definition
+		if d, ok := FunDefs[t.Name]; ok {
+			if !d.hashed {
+				d.rawHash = sha256.Sum256([]byte(d.Raw))
+				d.hashed = true
+			}
+			b = append(b, d.rawHash[:]...)
+		}
+	}
+	for _, a := range t.Args {
+		b = append(b, a.h[:]...)
+	}
+	b = append(b, 3)
+	for _, a := range t.Bound {
+		b = append(b, a.h[:]...)
+	}
+	b = append(b, 4)
+	for _, a := range t.Pats {
+		b = append(b, a.h[:]...)
+	}
+	return sha256.Sum256(b)
+}
+
+// Hash returns the structural hash of the term.
+func (t *Term) Hash() [32]byte { return t.h }
+
+// PreludeHash is the hash of the fixed prelude (datatypes, wrap functions) that every query starts with.
+func PreludeHash() [32]byte { return sha256.Sum256([]byte(Prelude)) }
 
 // canonBound renames the bound variables of a quantifier to names determined by the nesting depth of the body, so that
 // alpha-equivalent quantified formulas are the same term.
